@@ -234,6 +234,10 @@ func (c *Context) ask(system bool, recipient vivid.ActorRef, message vivid.Messa
 		c.system.removeFuture(agentRef)
 	})
 	c.system.appendFuture(agentRef, futureIns)
+	if futureIns.IsClosed() {
+		// 超时定时器在 NewFuture 内即已启动，可能先于上面的注册触发（此时 closer 找不到注册项）：补做一次清理，避免注册项永久残留
+		c.system.removeFuture(agentRef)
+	}
 
 	envelop := mailbox.NewEnvelop(system, agentRef.ref, recipient, message)
 	receiverMailbox := c.system.findMailbox(recipient.(*Ref))
